@@ -200,38 +200,56 @@ example : savedIndex .v1 (renameCarriers .v1 onSwitches
     { order := [".notdef".toList, "a".toList], glyphSet := [("a".toList, none)],
       psNames := some [("a".toList, ".notdef".toList)] }) = .ok [0, 1] := by decide
 
-/-- when '.notdef' keeps its name (no `public.postscriptNames` entry renames it) the switches do not reach the
-    predicted font at all -/
+/-- **C12_cff1_writable**: for EVERY glyph order with distinct names that starts with '.notdef', every glyph
+    set, every `public.postscriptNames` map (entries for '.notdef' and entries asking for the name '.notdef'
+    included) and every setting of the switches, the CFF 1 charset after renaming still starts with '.notdef':
+    fontTools can write the table. -/
+theorem C12_cff1_writable (s : Switches) (i : Input) (h : i.order.Nodup) (h0 : i.order.head? = some notdef) :
+    cff1Writable (renameCarriers .v1 s i).charset = true := by
+  rw [renameCarriers_charset]
+  unfold cff1Writable
+  split
+  · have hk : i.order[0]? = some notdef := by rw [← List.head?_eq_getElem?]; exact h0
+    have := C11_notdef_kept i h 0 hk
+    rw [List.head?_eq_getElem?, this]; rfl
+  · rw [h0]; rfl
+
+/-- the switches and the map do not reach the predicted font at all -/
 theorem modelFontNamed_eq (s : Switches) (i : Input) (base : Out) (c : Combo)
-    (hw : cff1Writable (renameCarriers .v1 s i).charset = true) :
+    (h : i.order.Nodup) (h0 : i.order.head? = some notdef) :
     modelFontNamed s i base c = modelFont (i.order.map String.ofList) base c := by
   unfold modelFontNamed
   cases modelFont (i.order.map String.ofList) base c with
   | error e => rfl
-  | ok o => simp [hw]
+  | ok o => simp [C12_cff1_writable s i h h0]
 
-/-- **C12_same_named**: `C12_same` for sources built with ANY setting of the production-name switches: the fonts
-    predicted from the un-renamed reference build satisfy the property for every list of in-domain combinations,
-    as long as '.notdef' keeps its name -/
+/-- **C12_same_named**: `C12_same` for sources built with ANY setting of the production-name switches and ANY
+    `public.postscriptNames` map: the fonts predicted from the un-renamed reference build satisfy the property for
+    every list of in-domain combinations (the glyph order of a compiled font has distinct names and starts with
+    '.notdef') -/
 theorem C12_same_named (s : Switches) (i : Input) (base : Out) (cs : List Combo)
     (hdom : ∀ c ∈ cs, inDomain c.2.1 c.2.2 = true) (hp : plainFont (i.order.map String.ofList) base)
-    (hw : cff1Writable (renameCarriers .v1 s i).charset = true) :
+    (h : i.order.Nodup) (h0 : i.order.head? = some notdef) :
     holdsSame cs (cs.map (modelFontNamed s i base)) = true := by
   have e : cs.map (modelFontNamed s i base) = cs.map (modelFont (i.order.map String.ofList) base) :=
-    map_congr_left (fun c _ => modelFontNamed_eq s i base c hw)
+    map_congr_left (fun c _ => modelFontNamed_eq s i base c h h0)
   rw [e]
   exact C12_same _ base cs hdom hp
 
-/-- THE FINDING (fontTools refuses a 'CFF ' charset that does not start with '.notdef'; ufo2ft renames '.notdef'
-    like any other glyph): with `public.postscriptNames = {'.notdef': 'nd'}` the CFF 1 builds fail when saved, the
-    CFF 2 builds succeed, so the property is false of the (faithful) model's output -/
+/-- the former finding as an input: `public.postscriptNames = {'.notdef': 'nd', 'a': '.notdef'}` -/
 def notdefInput : Input :=
   { order := [".notdef".toList, "a".toList, "b".toList]
     glyphSet := [(".notdef".toList, none), ("a".toList, some 0x61), ("b".toList, none)]
-    psNames := some [(".notdef".toList, "nd".toList)] }
+    psNames := some [(".notdef".toList, "nd".toList), ("a".toList, ".notdef".toList)] }
 
-example : cff1Writable (renameCarriers .v1 onSwitches notdefInput).charset = false := by decide
-example : holdsSame combos18 (combos18.map (modelFontNamed onSwitches notdefInput plainBase)) = false := by decide
-example : cff1Writable (renameCarriers .v1 onSwitches swapInput).charset = true := by decide
+example : notdefInput.order.Nodup ∧ notdefInput.order.head? = some notdef := by decide
+example : savedNames .v1 (renameCarriers .v1 onSwitches notdefInput)
+    = some [".notdef".toList, ".notdef.1".toList, "b".toList] := by decide
+example : holdsSame combos18 (combos18.map (modelFontNamed onSwitches notdefInput plainBase)) = true := by decide
+
+/-- LABELLED COUNTEREXAMPLE over the OLD naming function (`C11.finalOrderOldNotdef`: '.notdef' renamed like any other
+    glyph): the charset it produced for the same input cannot be written by fontTools, which is why the CFF 1 builds
+    failed at save while the CFF 2 builds succeeded -/
+example : cff1Writable (finalOrderOldNotdef notdefInput) = false := by decide
 
 end Ufo2ft.C12
